@@ -50,3 +50,11 @@ def seed():
 def tier():
     t = os.environ.get("VERIF_TIER", "quick")
     return t if t in ("quick", "thorough") else "quick"
+
+
+def debug_shapes():
+    """VERIF_SHAPES='cat,cai,cac;mr,cai,cac' restricts scenario shapes (exploration aid only)."""
+    v = os.environ.get("VERIF_SHAPES")
+    if not v:
+        return None
+    return [tuple(t for t in s.split(",") if t) for s in v.split(";")]
